@@ -116,6 +116,7 @@ var exported = []string{"Foo", "Bar", "New", "Client", "Reader", "Writer", "Prin
 var locals = []string{"a", "b", "c", "v", "w", "n", "s", "t", "err", "buf", "ok", "i", "j"}
 
 type g struct {
+	nlabel int
 	t      *tape.Tape
 	refd   map[string]bool // local names of imports the generated code already refers to
 	usable []Import        // imports that can be referenced by name
@@ -224,11 +225,16 @@ func (g *g) expr(depth int) string {
 }
 
 func (g *g) stmt(depth int) string {
-	n := 16
+	n := 17
 	if depth > 2 {
 		n = 5
 	}
 	switch g.t.Draw(n) {
+	case 16:
+		// a forward goto: the label's declaration (the whole labelled statement) is reached through
+		// the identifier's Object before the statement itself is
+		g.nlabel++
+		return fmt.Sprintf("goto L%d\n%s(%s)\nL%d:\n%s(%s, %s)\nif %s {\ngoto L%d\n}", g.nlabel, g.q(), g.expr(1), g.nlabel, g.q(), g.q(), g.expr(1), g.pick(locals), g.nlabel)
 	case 14:
 		// a multi-line call whose last argument is a qualified identifier followed by an own-line comment
 		// (go/printer keeps the comment with the arguments if it was written indented, and puts it
